@@ -17,7 +17,10 @@ func symIndex(idx value, n int) int64 {
 		return i
 	}
 	w := s.t.Sort.W
-	inRange := term.Cmp("bvult", s.t, term.Const(w, uint64(n)))
+	inRange := term.True
+	if w >= 63 || uint64(n) < uint64(1)<<uint(w) {
+		inRange = term.Cmp("bvult", s.t, term.Const(w, uint64(n)))
+	}
 	if n == 0 || !Branch(inRange) {
 		panic(targetPanic{fmt.Sprintf("runtime error: index out of range [symbolic] with length %d", n)})
 	}
@@ -36,7 +39,11 @@ func symSelect(elems []value, idx value) value {
 	}
 	n := len(elems)
 	w := s.t.Sort.W
-	if n == 0 || !Branch(term.Cmp("bvult", s.t, term.Const(w, uint64(n)))) {
+	inRange := term.True
+	if w >= 63 || uint64(n) < uint64(1)<<uint(w) {
+		inRange = term.Cmp("bvult", s.t, term.Const(w, uint64(n)))
+	}
+	if n == 0 || !Branch(inRange) {
 		panic(targetPanic{fmt.Sprintf("runtime error: index out of range [symbolic] with length %d", n)})
 	}
 	scalar := true
@@ -68,7 +75,11 @@ func boundCheck(b value, capacity int) value {
 		return b
 	}
 	w := s.t.Sort.W
-	if !Branch(term.Cmp("bvule", s.t, term.Const(w, uint64(capacity)))) {
+	okBound := term.True
+	if w >= 63 || uint64(capacity) < uint64(1)<<uint(w) {
+		okBound = term.Cmp("bvule", s.t, term.Const(w, uint64(capacity)))
+	}
+	if !Branch(okBound) {
 		panic(targetPanic{fmt.Sprintf("runtime error: slice bounds out of range [symbolic] with capacity %d", capacity)})
 	}
 	return int(concretise(s))
